@@ -232,3 +232,17 @@ Proof. vm_compute. reflexivity. Qed.
 Lemma percent_flag_mismatch :
   lex_str (mkLex EscNone false) (render_string SQLite (mkFlags true false) false [37]) = Some ([37; 37], []).
 Proof. vm_compute. reflexivity. Qed.
+
+(* ------------------------------------------------------------------ through render_literal_value *)
+
+Lemma unicode_n_mssql d t s : unicode_n d t s = true -> d = MSSQL.
+Proof. unfold unicode_n. destruct d; try discriminate. reflexivity. Qed.
+
+Theorem string_value_roundtrip : forall d fl t s rest lit,
+  render_value d fl (VStr t s) = Ok lit ->
+  no_quote_prefix rest ->
+  lex_str (server d fl) (driver fl (lit ++ rest)) = Some (s, driver fl rest).
+Proof.
+  intros d fl t s rest lit H Hr. cbn [render_value] in H. inversion H; subst lit.
+  apply string_literal_roundtrip; [apply unicode_n_mssql|exact Hr].
+Qed.
